@@ -24,7 +24,12 @@ def programs(tier, seed):
     return progs, res
 
 
-def edge_signature(p, a, b):
+JUMP = dict(ret='return', brk='break', cnt='continue')
+
+
+def edge_signature(p, a, b, pend=''):
+    """Where the two nodes part in the tree, and what transfers control: the executed statement itself, or - when it
+    is an ordinary statement of a finally block that a jump is passing through - that pending jump."""
     par = mpsig.parents(p)
     pa = mpsig.path(p, a, par) if a else []
     pb = mpsig.path(p, b, par) if b else []
@@ -33,7 +38,10 @@ def edge_signature(p, a, b):
         i += 1
     ea = '%s.%s' % pa[i][:2] if i < len(pa) else '-'
     eb = '%s.%s' % pb[i][:2] if i < len(pb) else '-'
-    return 'c05:edge:%s@%s->%s' % (mpsig.kind(p, a), ea, eb)
+    k = mpsig.kind(p, a)
+    if pend in JUMP and k not in JUMP.values():
+        k = JUMP[pend]
+    return 'c05:edge:%s@%s->%s' % (k, ea, eb)
 
 
 def classify(p, bad):
@@ -42,7 +50,7 @@ def classify(p, bad):
     rest = [x.strip().strip('"') for x in m.group(3).split(',')]
     if kind == 'edge':
         a, b = int(rest[0]), int(rest[1])
-        return edge_signature(p, a, b), 'executed transfer %s(node %d) -> %s(node %d) is not an edge of the graph' % (
+        return edge_signature(p, a, b, rest[2] if len(rest) > 2 else ''), 'executed transfer %s(node %d) -> %s(node %d) is not an edge of the graph' % (
             mpsig.kind(p, a), a, mpsig.kind(p, b), b)
     if kind == 'exit':
         a = int(rest[0])
